@@ -29,6 +29,8 @@ ASSUMPTIONS = [
     'the reload clause compares constructor-level parameters that the writers store; opacities stay registered in the caches between write and reload',
 ]
 REQUIRED = {'part:dict': 0.08, 'part:spectrum': 0.08, 'part:model': 0.08}
+# coverage-guided extra (thorough tier): pure-Python taurex modules on this property's path, instrumented by atheris
+FUZZ = {'include': ['taurex.output', 'taurex.util.output', 'taurex.util.hdf5', 'taurex.util.util', 'taurex.binning'], 'runs': 8000, 'workers': 4}
 
 KEY = st.text(alphabet='abcdefghijklmnopqrstuvwxyzABCDEFGHIJKLMNOPQRSTUVWXYZ_', min_size=1, max_size=8)
 ASCII = st.text(alphabet=st.characters(min_codepoint=32, max_codepoint=126), min_size=0, max_size=40)
@@ -37,10 +39,10 @@ ASCII = st.text(alphabet=st.characters(min_codepoint=32, max_codepoint=126), min
 def _leaf():
     num = st.floats(-1e300, 1e300)
     return st.one_of(
-        num.map(lambda v: ['float', v]), st.integers(-2 ** 62, 2 ** 62).map(lambda v: ['int', v]),
+        num.map(lambda v: ['float', v]), S.ints(-2 ** 62, 2 ** 62).map(lambda v: ['int', v]),
         st.booleans().map(lambda v: ['bool', v]), num.map(lambda v: ['npfloat', v]),
-        st.integers(-2 ** 62, 2 ** 62).map(lambda v: ['npint', v]),
-        st.tuples(st.sampled_from(['f', 'i']), st.lists(st.integers(0, 3), max_size=3),
+        S.ints(-2 ** 62, 2 ** 62).map(lambda v: ['npint', v]),
+        st.tuples(st.sampled_from(['f', 'i']), st.lists(S.ints(0, 3), max_size=3),
                   st.lists(st.floats(-1e6, 1e6), min_size=27, max_size=27)).map(lambda t: ['array', t[0], t[1], t[2]]),
         ASCII.map(lambda v: ['str', v]),
         st.lists(num, max_size=5).map(lambda v: ['numlist', v]),
@@ -63,14 +65,14 @@ def _case(draw):
     part = draw(st.sampled_from(['dict', 'model', 'spectrum', 'dict', 'model']))
     c = {'part': part}
     if part == 'dict':
-        c['tree'] = draw(_tree(draw(st.integers(0, 3))))
+        c['tree'] = draw(_tree(draw(S.ints(0, 3))))
         return c
     c['family'] = draw(st.sampled_from(['transmission', 'emission']))
-    c['ngauss'] = draw(st.integers(1, 4))
+    c['ngauss'] = draw(S.ints(1, 4))
     if part == 'spectrum':
         c['binner'] = draw(st.sampled_from(['flux', 'simple', 'native', 'flux-widths']))
         c['size'] = draw(st.sampled_from(['heavy', 'light', 'lighter']))
-        c['nb'] = draw(st.integers(2, 6))
+        c['nb'] = draw(S.ints(2, 6))
         c['wf'] = draw(st.lists(st.floats(0.3, 1.5), min_size=6, max_size=6))
         c['world'] = draw(S.world(layers=(2, 8), nwn=(20, 30), max_active=2, extras=('CIA', 'Rayleigh'), mags=['mixed']))
         return c
